@@ -1,4 +1,5 @@
 import ZV.Proofs.C26
+import ZV.Proofs.C26Vectors
 import ZV.Generated.C26
 /-!
 # C26 — TLS key derivation matches the RFC definitions
@@ -389,6 +390,380 @@ theorem exporter13_eq_rfc (H : Hash13) (masterSecret msgs label context : Bytes)
   rw [expandLabel_eq_rfc H _ exporterExpandLabel (H.hash context) length
     ⟨by rw [hx]; decide, by rw [hh]; exact hs, hn, hn16⟩]
   rfl
+
+
+/-! ## every protocol version and every suite (no restriction to TLS 1.2 / SHA-256) -/
+
+/-- `some b ↦ ok b`, `none ↦ panic`: the Go code panics exactly where the RFCs define no PRF -/
+def ofOpt {α : Type} : Option α → Res α
+  | some a => .ok a
+  | none => .panic
+
+/-- For EVERY version and suite flag: `prfForVersion` selects exactly the PRF the RFC of that version defines
+(RFC 2246 §5 for 1.0/1.1, RFC 5246 §5 with SHA-256 / SHA-384 for 1.2) and panics exactly for the versions that have none. -/
+theorem prfForVersion_spec (P : Prims) (hP : FixedPrims P) (v : Nat) (f : Bool) :
+    (∃ prf, prfForVersion P v f = .ok prf ∧ ∀ n s l sd, RFC.PRF P v f s l sd n = some (prf n s l sd))
+    ∨ (prfForVersion P v f = .panic ∧ ∀ n s l sd, RFC.PRF P v f s l sd n = none) := by
+  obtain ⟨⟨L1, h1⟩, ⟨L2, h2⟩, ⟨L3, h3⟩, ⟨L4, h4⟩⟩ := hP
+  unfold prfForVersion prfAndHashForVersion RFC.PRF
+  simp only [VersionTLS10, VersionTLS11, VersionTLS12]
+  by_cases hv : v = 0x0301 ∨ v = 0x0302
+  · left
+    refine ⟨prf10 P, by simp [hv, Res.map], ?_⟩
+    intro n s l sd
+    rw [if_pos hv]
+    rw [prf10_eq_rfc P h1 h2 n s l sd n n (Nat.le_mul_of_pos_right n h1.1) (Nat.le_mul_of_pos_right n h2.1)]
+  · by_cases hv2 : v = 0x0303
+    · left
+      cases f with
+      | true =>
+        refine ⟨prf12 P.hmacSHA384, by simp [hv, hv2, Res.map], ?_⟩
+        intro n s l sd
+        rw [if_neg hv, if_pos hv2]; simp only [if_true]
+        rw [prf12_eq_rfc h4 n s l sd n (Nat.le_mul_of_pos_right n h4.1)]
+      | false =>
+        refine ⟨prf12 P.hmacSHA256, by simp [hv, hv2, Res.map], ?_⟩
+        intro n s l sd
+        rw [if_neg hv, if_pos hv2]; simp only [Bool.false_eq_true, if_false]
+        rw [prf12_eq_rfc h3 n s l sd n (Nat.le_mul_of_pos_right n h3.1)]
+    · right
+      exact ⟨by simp [hv, hv2, Res.map], fun _ _ _ _ => by rw [if_neg hv, if_neg hv2]⟩
+
+/-- RFC 2246 / 5246 §8.1 for EVERY version and suite: `master_secret = PRF(pre_master_secret, "master secret",
+ClientHello.random + ServerHello.random)[0..47]`. -/
+theorem master_eq_rfc_all (P : Prims) (hP : FixedPrims P) (v : Nat) (f : Bool) (pms cr sr : Bytes) :
+    masterFromPreMasterSecret P v f pms cr sr
+      = ofOpt (RFC.PRF P v f pms (ascii "master secret") (cr ++ sr) 48) := by
+  rcases prfForVersion_spec P hP v f with ⟨prf, hp, hr⟩ | ⟨hp, hr⟩
+  · simp only [masterFromPreMasterSecret, hp, hr, ofOpt, masterSecretLength, masterSecretLabel]
+  · simp only [masterFromPreMasterSecret, hp, hr, ofOpt]
+
+/-- RFC 2246 / 5246 §6.3 for EVERY version, suite flag and length triple: the keys are the slices of
+`PRF(master_secret, "key expansion", server_random + client_random)` of length `2·mac + 2·key + 2·iv`. -/
+theorem keys_eq_rfc_all (P : Prims) (hP : FixedPrims P) (v : Nat) (f : Bool) (ms cr sr : Bytes) (mac key iv : Nat) :
+    keysFromMasterSecret P v f ms cr sr mac key iv
+      = (ofOpt (RFC.PRF P v f ms (ascii "key expansion") (sr ++ cr) (2 * mac + 2 * key + 2 * iv))).map
+          (fun kb => sliceKeys kb mac key iv) := by
+  rcases prfForVersion_spec P hP v f with ⟨prf, hp, hr⟩ | ⟨hp, hr⟩
+  · simp only [keysFromMasterSecret, keyBlock, hp, hr, ofOpt, Res.map, keyExpansionLabel]
+  · simp only [keysFromMasterSecret, keyBlock, hp, hr, ofOpt, Res.map]
+
+/-- the handshake hash `finishedHash.Sum` for EVERY version: MD5 ‖ SHA-1 before TLS 1.2, the suite's PRF hash in TLS 1.2 -/
+theorem finishedSum_eq_rfc (P : Prims) (v : Nat) (f : Bool) (msgs : Bytes)
+    (hv : v = 0x0301 ∨ v = 0x0302 ∨ v = 0x0303) :
+    finishedSum P v f msgs = .ok (RFC.Handshake_Hash P v f msgs) := by
+  rcases hv with h | h | h <;> subst h <;> cases f <;>
+    simp [finishedSum, prfAndHashForVersion, VersionTLS10, VersionTLS11, VersionTLS12, RFC.Handshake_Hash]
+
+/-- RFC 2246 / 5246 §7.4.9 for EVERY version and suite: `verify_data = PRF(master_secret, finished_label,
+Hash(handshake_messages))[0..11]`, label "client finished" for `clientSum`, "server finished" for `serverSum`. -/
+theorem finished_eq_rfc_all (P : Prims) (hP : FixedPrims P) (v : Nat) (f : Bool) (ms msgs : Bytes)
+    (hv : v = 0x0301 ∨ v = 0x0302 ∨ v = 0x0303) :
+    clientSum P v f ms msgs
+        = ofOpt (RFC.PRF P v f ms (ascii "client finished") (RFC.Handshake_Hash P v f msgs) 12)
+    ∧ serverSum P v f ms msgs
+        = ofOpt (RFC.PRF P v f ms (ascii "server finished") (RFC.Handshake_Hash P v f msgs) 12) := by
+  have hsum := finishedSum_eq_rfc P v f msgs hv
+  rcases prfForVersion_spec P hP v f with ⟨prf, hp, hr⟩ | ⟨hp, hr⟩
+  · simp only [clientSum, serverSum, finishedVerify, hp, hr, hsum, ofOpt, finishedVerifyLength,
+      clientFinishedLabel, serverFinishedLabel, and_self]
+  · simp only [clientSum, serverSum, finishedVerify, hp, hr, hsum, ofOpt, and_self]
+
+example : (0x0302 : Nat) = 0x0301 ∨ (0x0302 : Nat) = 0x0302 ∨ (0x0302 : Nat) = 0x0303 := by decide
+
+/-- outside TLS 1.0–1.2 there is no Finished computation: the code panics (never a made-up verify_data) -/
+theorem finished_panics_other_versions (P : Prims) (v : Nat) (f : Bool) (ms msgs : Bytes)
+    (hv : ¬ (v = 0x0301 ∨ v = 0x0302 ∨ v = 0x0303)) :
+    clientSum P v f ms msgs = .panic ∧ serverSum P v f ms msgs = .panic := by
+  have h1 : ¬ (v = VersionTLS10 ∨ v = VersionTLS11) := fun h => hv (by
+    simp only [VersionTLS10, VersionTLS11] at h; rcases h with h | h
+    · exact Or.inl h
+    · exact Or.inr (Or.inl h))
+  have h2 : ¬ v = VersionTLS12 := fun h => hv (Or.inr (Or.inr h))
+  simp [clientSum, serverSum, finishedVerify, prfForVersion, prfAndHashForVersion, h1, h2, Res.map]
+
+/-- RFC 5705 §4 for EVERY version and suite -/
+theorem exporter_eq_rfc_all (P : Prims) (hP : FixedPrims P) (v : Nat) (f : Bool) (ms cr sr label : Bytes)
+    (context : Option Bytes) (length : Nat) (hlabel : label ∉ ekmReserved)
+    (hctx : ∀ c, context = some c → c.length < 65536) :
+    ekmFromMasterSecret P v f ms cr sr label context length
+      = ofOpt (RFC.PRF P v f ms label (exporterSeed cr sr context) length) := by
+  unfold ekmFromMasterSecret
+  rw [if_neg (by simpa using hlabel)]
+  cases context with
+  | none =>
+    rcases prfForVersion_spec P hP v f with ⟨prf, hp, hr⟩ | ⟨hp, hr⟩ <;>
+      simp only [hp, hr, ofOpt, exporterSeed]
+  | some c =>
+    have hc := hctx c rfl
+    simp only
+    rw [if_neg (by omega)]
+    rcases prfForVersion_spec P hP v f with ⟨prf, hp, hr⟩ | ⟨hp, hr⟩ <;>
+      simp only [hp, hr, ofOpt, exporterSeed, lenPrefix16_eq_rfc, opaque16, List.append_assoc]
+
+/-! ### the suite table (T1) -/
+
+/-- (MAC key, cipher key, fixed IV) lengths of the key block per suite, from the RFCs that define the suites:
+RC4_128_SHA 20/16/0 (RFC 2246, 4492), 3DES_EDE_CBC_SHA 20/24/8, AES_128/256_CBC_SHA 20/16|32/16 (RFC 3268, 4492),
+AES_*_CBC_SHA256 32/·/16 (RFC 5246, 5289), AES_*_GCM 0/16|32/4 (RFC 5288, 5289: salt = 4-byte implicit nonce),
+CHACHA20_POLY1305 0/32/12 (RFC 7905). -/
+def rfcSuiteLens (id : Nat) : Option (Nat × Nat × Nat) :=
+  if [0x0005, 0x0066, 0xC007, 0xC011].contains id then some (20, 16, 0)
+  else if [0x000A, 0x0013, 0x0016, 0xC008, 0xC012].contains id then some (20, 24, 8)
+  else if [0x002F, 0x0032, 0x0033, 0xC009, 0xC013].contains id then some (20, 16, 16)
+  else if [0x0035, 0x0038, 0x0039, 0xC00A, 0xC014].contains id then some (20, 32, 16)
+  else if [0x003C, 0x0040, 0x0067, 0xC023, 0xC027].contains id then some (32, 16, 16)
+  else if [0x003D, 0x006A, 0x006B].contains id then some (32, 32, 16)
+  else if [0x009C, 0x009E, 0x00A2, 0xC02B, 0xC02F].contains id then some (0, 16, 4)
+  else if [0x009D, 0x009F, 0x00A3, 0xC02C, 0xC030].contains id then some (0, 32, 4)
+  else if [0xCCA8, 0xCCA9, 0xCCAA].contains id then some (0, 32, 12)
+  else none
+
+/-- T1: EVERY row of `implementedCipherSuites` carries the RFC's key-block lengths and the RFC's PRF hash flag,
+and the flag column agrees with the older `suites` dump -/
+theorem suite_lengths_eq_rfc :
+    (∀ row ∈ ZV.Generated.C26.suiteRows,
+      rfcSuiteLens row.1 = some (row.2.1, row.2.2.1, row.2.2.2.1) ∧ row.2.2.2.2 = rfcSHA384Suites.contains row.1)
+    ∧ ZV.Generated.C26.suiteRows.map (fun r => (r.1, r.2.2.2.2)) = ZV.Generated.C26.suites := by decide
+
+/-- T1: the handshake passes the suite's own three lengths, in the order (macLen, keyLen, ivLen), and the hello randoms
+in the order (client, server) on both sides -/
+theorem key_calls_eq : ZV.Generated.C26.keyCalls = [
+    ("handshake_client.go", "doFullHandshake", "master:c.vers,hs.suite,hs.preMasterSecret,hs.hello.random,hs.serverHello.random"),
+    ("handshake_client.go", "establishKeys", "c.vers,hs.suite,hs.masterSecret,hs.hello.random,hs.serverHello.random,hs.suite.macLen,hs.suite.keyLen,hs.suite.ivLen"),
+    ("handshake_server.go", "doFullHandshake", "master:c.vers,hs.suite,hs.preMasterSecret,hs.clientHello.random,hs.hello.random"),
+    ("handshake_server.go", "establishKeys", "c.vers,hs.suite,hs.masterSecret,hs.clientHello.random,hs.hello.random,hs.suite.macLen,hs.suite.keyLen,hs.suite.ivLen")] := by
+  decide
+
+/-- For EVERY suite of the generated table, every version and all secrets: whenever `establishKeys` produces keys, the
+six parts have the RFC lengths of that suite, and their concatenation (client MAC, server MAC, client key, server key,
+client IV, server IV) is exactly the RFC key block `PRF(master_secret, "key expansion", server_random + client_random)`
+of length `2·mac + 2·key + 2·iv` — nothing lost, nothing reordered, nothing beyond the block. -/
+theorem keys_partition_every_suite (P : Prims) (hP : FixedPrims P) (version : Nat)
+    (row : Nat × Nat × Nat × Nat × Bool) (hrow : row ∈ ZV.Generated.C26.suiteRows)
+    (ms cr sr : Bytes) (k : Keys) (h : establishKeys P version row ms cr sr = .ok k) :
+    rfcSuiteLens row.1 = some (k.clientMAC.length, k.clientKey.length, k.clientIV.length)
+    ∧ k.serverMAC.length = k.clientMAC.length ∧ k.serverKey.length = k.clientKey.length
+    ∧ k.serverIV.length = k.clientIV.length
+    ∧ RFC.PRF P version row.2.2.2.2 ms (ascii "key expansion") (sr ++ cr)
+        (2 * row.2.1 + 2 * row.2.2.1 + 2 * row.2.2.2.1)
+      = some (k.clientMAC ++ k.serverMAC ++ k.clientKey ++ k.serverKey ++ k.clientIV ++ k.serverIV) := by
+  unfold establishKeys at h
+  obtain ⟨prf, hp, hcat, l1, l2, l3, l4, l5, l6⟩ :=
+    keys_partition_all_versions P hP version row.2.2.2.2 ms cr sr row.2.1 row.2.2.1 row.2.2.2.1 k h
+  have hrfc := (suite_lengths_eq_rfc.1 row hrow).1
+  refine ⟨by rw [l1, l3, l5]; exact hrfc, by rw [l1, l2], by rw [l3, l4], by rw [l5, l6], ?_⟩
+  rcases prfForVersion_spec P hP version row.2.2.2.2 with ⟨prf', hp', hr⟩ | ⟨hp', _⟩
+  · rw [hp] at hp'; cases hp'
+    rw [hr, hcat]; rfl
+  · rw [hp] at hp'; cases hp'
+
+example : ((0xC02F, 0, 16, 4, false) : Nat × Nat × Nat × Nat × Bool) ∈ ZV.Generated.C26.suiteRows := by decide
+
+/-! ## TLS 1.3: label encoding is injective, and the schedule as the handshake wires it -/
+
+theorem uint8_ofNat_inj {a b : Nat} (ha : a < 256) (hb : b < 256) (h : UInt8.ofNat a = UInt8.ofNat b) : a = b := by
+  have := congrArg UInt8.toNat h
+  simp at this
+  omega
+
+/-- HkdfLabel is an injective encoding of (length, label, context) on the encodable domain: two HKDF-Expand-Label
+calls get the same `info` string only if they agree on all three, so distinct labels (or the same label with distinct
+contexts / lengths) can never collide. -/
+theorem hkdfLabel_injective (l l' c c' : Bytes) (n n' : Nat) (x : Bytes) (hn : n < 65536) (hn' : n' < 65536)
+    (h : hkdfLabel l c n = some x) (h' : hkdfLabel l' c' n' = some x) : l = l' ∧ c = c' ∧ n = n' := by
+  have hb : ¬ (255 < l.length + 6 ∨ 255 < c.length) := fun hh => by
+    rw [(hkdfLabel_none_iff l c n).mpr hh] at h; cases h
+  have hb' : ¬ (255 < l'.length + 6 ∨ 255 < c'.length) := fun hh => by
+    rw [(hkdfLabel_none_iff l' c' n').mpr hh] at h'; cases h'
+  have e := (hkdfLabel_layout l c n (by omega) (by omega) hn).1
+  have e' := (hkdfLabel_layout l' c' n' (by omega) (by omega) hn').1
+  rw [h] at e; rw [h'] at e'
+  have := e.symm.trans e'
+  simp only [Option.some.injEq, List.cons_append, List.nil_append, List.append_assoc, List.cons.injEq] at this
+  obtain ⟨a1, a2, a3, _, _, _, _, _, _, rest⟩ := this
+  have hl : l.length = l'.length := by
+    have := uint8_ofNat_inj (by omega) (by omega) a3; omega
+  have ⟨e1, e2⟩ := List.append_inj rest hl
+  simp only [List.cons.injEq] at e2
+  have h1 := uint8_ofNat_inj (by omega) (by omega) a1
+  have h2 := uint8_ofNat_inj (by omega) (by omega) a2
+  exact ⟨e1, e2.2, by omega⟩
+
+example : hkdfLabel (ascii "key") [] 16 ≠ hkdfLabel (ascii "iv") [] 16 := by decide
+
+/-- the hash of a TLS 1.3 suite behaves like one: digests have `size ≤ 255` bytes, and HMAC zero-pads its key
+(RFC 2104 §2), so the absent salt `nil` and the RFC's salt "0" (`size` zero bytes) are the same key -/
+structure GoodHash13 (H : Hash13) : Prop where
+  hh : ∀ m, (H.hash m).length = H.size
+  hs : H.size ≤ 255
+  hpad : ∀ m, H.hmac [] m = H.hmac (List.replicate H.size 0) m
+
+example : GoodHash13 ⟨fun _ _ => [1], fun _ => [2], 1⟩ := ⟨fun _ => rfl, by decide, fun _ => rfl⟩
+
+/-- the executable HMAC of the driver zero-pads its key -/
+theorem real_hmac_pad (a : ZV.Hash.HashAlg) (h : a.outSize ≤ a.blockSize) (m : Bytes) :
+    ZV.Hash.hmac a [] m = ZV.Hash.hmac a (List.replicate a.outSize 0) m := by
+  have hk : ZV.Hash.hmacKeyBlock a [] = ZV.Hash.hmacKeyBlock a (List.replicate a.outSize 0) := by
+    unfold ZV.Hash.hmacKeyBlock
+    have h1 : ¬ (([] : Bytes).length > a.blockSize) := by simp
+    have h2 : ¬ ((List.replicate a.outSize (0 : UInt8)).length > a.blockSize) := by simp; omega
+    rw [if_neg h1, if_neg h2]
+    simp only [List.length_nil, List.length_replicate, List.nil_append, List.replicate_append_replicate]
+    congr 1; omega
+  unfold ZV.Hash.hmac
+  rw [hk]
+
+/-- RFC 8446 §7.1: `Early Secret = HKDF-Extract(0, PSK or 0)` -/
+theorem earlySecret_eq_rfc (H : Hash13) (hH : GoodHash13 H) (psk : Option Bytes) :
+    earlySecret H psk = Early_Secret H psk := by
+  unfold earlySecret extract Early_Secret HKDF_Extract zeros
+  cases psk <;> simp [hH.hpad]
+
+/-- RFC 8446 §4.6.1: the ticket PSK is `HKDF-Expand-Label(resumption_master_secret, "resumption", ticket_nonce, Hash.length)` -/
+theorem ticketPSK_eq_rfc (H : Hash13) (hs : H.size < 65536) (res nonce : Bytes) (hn : nonce.length ≤ 255) :
+    ticketPSK H res nonce = .ok (Ticket_PSK H res nonce) := by
+  unfold ticketPSK Ticket_PSK
+  have hl : (resumptionPskLabel : Bytes).length = 10 := by decide
+  exact expandLabel_eq_rfc H res resumptionPskLabel nonce H.size
+    ⟨by rw [hl]; decide, hn, by calc H.size = 1 * H.size := (Nat.one_mul _).symm
+                                  _ ≤ 255 * H.size := Nat.mul_le_mul_right _ (by decide), hs⟩
+
+/-- … and a nonce that does not fit `opaque ticket_nonce<0..255>` makes the code panic, never derive a wrong PSK -/
+theorem ticketPSK_panics_iff (H : Hash13) (hs : 0 < H.size) (res nonce : Bytes) :
+    ticketPSK H res nonce = .panic ↔ 255 < nonce.length := by
+  unfold ticketPSK
+  rw [expandLabel_panics_iff]
+  have hl : (resumptionPskLabel : Bytes).length = 10 := by decide
+  rw [hl]
+  constructor
+  · intro h; rcases h with h | h | h
+    · omega
+    · exact h
+    · exfalso
+      have : H.size ≤ 255 * H.size := by
+        calc H.size = 1 * H.size := (Nat.one_mul _).symm
+          _ ≤ 255 * H.size := Nat.mul_le_mul_right _ (by decide)
+      omega
+  · intro h; exact Or.inr (Or.inl h)
+
+/-- RFC 8446 §4.2.11.2: the PSK binder of a resumed ClientHello -/
+theorem pskBinder_eq_rfc (H : Hash13) (hH : GoodHash13 H) (psk truncatedHello : Bytes) :
+    pskBinder H psk truncatedHello = .ok (PSK_Binder H psk truncatedHello) := by
+  unfold pskBinder PSK_Binder
+  have hl : (resumptionBinderLabel : Bytes).length = 10 := by decide
+  rw [deriveSecret_eq_rfc H _ resumptionBinderLabel none hH.hh hH.hs (by rw [hl]; decide)]
+  simp only [Res.bind, Option.getD]
+  rw [finished13_eq_rfc H _ _ (by have := hH.hs; omega), earlySecret_eq_rfc H hH]
+  rfl
+
+/-- RFC 8446 §7.1, the middle of the schedule exactly as `establishHandshakeKeys` / `sendServerParameters` wire it:
+`Handshake Secret = HKDF-Extract(Derive-Secret(Early Secret, "derived", ""), (EC)DHE)`,
+`client/server_handshake_traffic_secret = Derive-Secret(Handshake Secret, "c/s hs traffic", ClientHello…ServerHello)`,
+`Master Secret = HKDF-Extract(Derive-Secret(Handshake Secret, "derived", ""), 0)` — for every early secret, share and transcript. -/
+theorem establishHandshakeKeys_eq_rfc (H : Hash13) (hH : GoodHash13 H) (early sharedKey msgs : Bytes) :
+    establishHandshakeKeys H early sharedKey msgs = .ok
+      ⟨Derive_Secret H (Handshake_Secret H early sharedKey) (ascii "c hs traffic") msgs,
+       Derive_Secret H (Handshake_Secret H early sharedKey) (ascii "s hs traffic") msgs,
+       Master_Secret H (Handshake_Secret H early sharedKey)⟩ := by
+  unfold establishHandshakeKeys
+  have hd : (derivedLabel : Bytes).length = 7 := by decide
+  have hc : (clientHandshakeTrafficLabel : Bytes).length = 12 := by decide
+  have hsv : (serverHandshakeTrafficLabel : Bytes).length = 12 := by decide
+  rw [deriveSecret_eq_rfc H early derivedLabel none hH.hh hH.hs (by rw [hd]; decide)]
+  simp only [Res.bind]
+  rw [deriveSecret_eq_rfc H _ clientHandshakeTrafficLabel (some msgs) hH.hh hH.hs (by rw [hc]; decide),
+    deriveSecret_eq_rfc H _ serverHandshakeTrafficLabel (some msgs) hH.hh hH.hs (by rw [hsv]; decide),
+    deriveSecret_eq_rfc H _ derivedLabel none hH.hh hH.hs (by rw [hd]; decide)]
+  rfl
+
+/-- `client/server_application_traffic_secret_0 = Derive-Secret(Master Secret, "c/s ap traffic", ClientHello…server Finished)` -/
+theorem applicationSecrets_eq_rfc (H : Hash13) (hH : GoodHash13 H) (master msgs : Bytes) :
+    applicationSecrets H master msgs = .ok
+      ⟨Derive_Secret H master (ascii "c ap traffic") msgs, Derive_Secret H master (ascii "s ap traffic") msgs⟩ := by
+  unfold applicationSecrets
+  have hc : (clientApplicationTrafficLabel : Bytes).length = 12 := by decide
+  have hsv : (serverApplicationTrafficLabel : Bytes).length = 12 := by decide
+  rw [deriveSecret_eq_rfc H _ clientApplicationTrafficLabel (some msgs) hH.hh hH.hs (by rw [hc]; decide)]
+  simp only [Res.bind]
+  rw [deriveSecret_eq_rfc H _ serverApplicationTrafficLabel (some msgs) hH.hh hH.hs (by rw [hsv]; decide)]
+  rfl
+
+/-- `resumption_master_secret = Derive-Secret(Master Secret, "res master", ClientHello…client Finished)` -/
+theorem resumptionSecret_eq_rfc (H : Hash13) (hH : GoodHash13 H) (master msgs : Bytes) :
+    resumptionSecret H master msgs = .ok (Derive_Secret H master (ascii "res master") msgs) := by
+  unfold resumptionSecret
+  have hc : (resumptionLabel : Bytes).length = 10 := by decide
+  rw [deriveSecret_eq_rfc H _ resumptionLabel (some msgs) hH.hh hH.hs (by rw [hc]; decide)]
+  rfl
+
+/-- the whole chain of a resumed connection: ticket → PSK → early secret → handshake secrets, in RFC terms -/
+theorem resumed_schedule_eq_rfc (H : Hash13) (hH : GoodHash13 H) (res nonce sharedKey msgs psk : Bytes)
+    (hpsk : ticketPSK H res nonce = .ok psk) (hn : nonce.length ≤ 255) :
+    psk = Ticket_PSK H res nonce
+    ∧ establishHandshakeKeys H (earlySecret H (some psk)) sharedKey msgs = .ok
+      ⟨Derive_Secret H (Handshake_Secret H (Early_Secret H (some (Ticket_PSK H res nonce))) sharedKey) (ascii "c hs traffic") msgs,
+       Derive_Secret H (Handshake_Secret H (Early_Secret H (some (Ticket_PSK H res nonce))) sharedKey) (ascii "s hs traffic") msgs,
+       Master_Secret H (Handshake_Secret H (Early_Secret H (some (Ticket_PSK H res nonce))) sharedKey)⟩ := by
+  rw [ticketPSK_eq_rfc H (by have := hH.hs; omega) res nonce hn] at hpsk
+  cases hpsk
+  exact ⟨rfl, by rw [establishHandshakeKeys_eq_rfc H hH, earlySecret_eq_rfc H hH]⟩
+
+example : ticketPSK ⟨fun _ _ => [1], fun _ => [2], 1⟩ [5] [6] = .ok [1] := by decide
+
+/-- T1: the model's TLS 1.3 labels are the tree's label constants -/
+theorem model_labels13 :
+    [("resumptionBinderLabel", resumptionBinderLabel), ("clientHandshakeTrafficLabel", clientHandshakeTrafficLabel),
+     ("serverHandshakeTrafficLabel", serverHandshakeTrafficLabel),
+     ("clientApplicationTrafficLabel", clientApplicationTrafficLabel),
+     ("serverApplicationTrafficLabel", serverApplicationTrafficLabel), ("exporterLabel", exporterLabel),
+     ("resumptionLabel", resumptionLabel), ("trafficUpdateLabel", trafficUpdateLabel)].all
+      (fun p => (ZV.Generated.C26.labels.map (fun q => (q.1, ascii q.2))).contains p) = true
+    ∧ derivedLabel = ascii "derived" ∧ resumptionPskLabel = ascii "resumption"
+    ∧ tls13Prefix = ascii "tls13 " ∧ ZV.Generated.C26.hkdfLabelPrefix = ["tls13 "] := by decide
+
+/-- T1: the TLS 1.3 schedule as the handshake code wires it — every deriveSecret / expandLabel / extract / finishedHash
+call of the handshake files with its label literal, in source order, is the RFC 8446 §7.1 / §4.2.11.2 / §4.6.1 / §7.2
+sequence on both sides (a changed, swapped or dropped label re-checks this theorem) -/
+theorem schedule_calls_eq_rfc : ZV.Generated.C26.scheduleCalls = [
+  ("handshake_client.go", "loadSession", "expandLabel", "resumption"),
+  ("handshake_client.go", "loadSession", "extract", "-"),
+  ("handshake_client.go", "loadSession", "deriveSecret", "res binder"),
+  ("handshake_client.go", "loadSession", "finishedHash", "-"),
+  ("handshake_client_tls13.go", "processHelloRetryRequest", "finishedHash", "-"),
+  ("handshake_client_tls13.go", "establishHandshakeKeys", "extract", "-"),
+  ("handshake_client_tls13.go", "establishHandshakeKeys", "extract", "-"),
+  ("handshake_client_tls13.go", "establishHandshakeKeys", "deriveSecret", "derived"),
+  ("handshake_client_tls13.go", "establishHandshakeKeys", "deriveSecret", "c hs traffic"),
+  ("handshake_client_tls13.go", "establishHandshakeKeys", "deriveSecret", "s hs traffic"),
+  ("handshake_client_tls13.go", "establishHandshakeKeys", "extract", "-"),
+  ("handshake_client_tls13.go", "establishHandshakeKeys", "deriveSecret", "derived"),
+  ("handshake_client_tls13.go", "readServerFinished", "finishedHash", "-"),
+  ("handshake_client_tls13.go", "readServerFinished", "deriveSecret", "c ap traffic"),
+  ("handshake_client_tls13.go", "readServerFinished", "deriveSecret", "s ap traffic"),
+  ("handshake_client_tls13.go", "readServerFinished", "exportKeyingMaterial", "-"),
+  ("handshake_client_tls13.go", "sendClientFinished", "finishedHash", "-"),
+  ("handshake_client_tls13.go", "sendClientFinished", "deriveSecret", "res master"),
+  ("handshake_server_tls13.go", "checkForResumption", "expandLabel", "resumption"),
+  ("handshake_server_tls13.go", "checkForResumption", "extract", "-"),
+  ("handshake_server_tls13.go", "checkForResumption", "deriveSecret", "res binder"),
+  ("handshake_server_tls13.go", "checkForResumption", "finishedHash", "-"),
+  ("handshake_server_tls13.go", "sendServerParameters", "extract", "-"),
+  ("handshake_server_tls13.go", "sendServerParameters", "extract", "-"),
+  ("handshake_server_tls13.go", "sendServerParameters", "deriveSecret", "derived"),
+  ("handshake_server_tls13.go", "sendServerParameters", "deriveSecret", "c hs traffic"),
+  ("handshake_server_tls13.go", "sendServerParameters", "deriveSecret", "s hs traffic"),
+  ("handshake_server_tls13.go", "sendServerFinished", "finishedHash", "-"),
+  ("handshake_server_tls13.go", "sendServerFinished", "extract", "-"),
+  ("handshake_server_tls13.go", "sendServerFinished", "deriveSecret", "derived"),
+  ("handshake_server_tls13.go", "sendServerFinished", "deriveSecret", "c ap traffic"),
+  ("handshake_server_tls13.go", "sendServerFinished", "deriveSecret", "s ap traffic"),
+  ("handshake_server_tls13.go", "sendServerFinished", "exportKeyingMaterial", "-"),
+  ("handshake_server_tls13.go", "sendSessionTickets", "finishedHash", "-"),
+  ("handshake_server_tls13.go", "sendSessionTickets", "deriveSecret", "res master"),
+  ("conn.go", "handleKeyUpdate", "nextTrafficSecret", "-"),
+  ("conn.go", "handleKeyUpdate", "nextTrafficSecret", "-")] := by decide
+
 
 /-! ## T1: the constants and table columns of the tree (re-extracted on every run) -/
 
